@@ -1,4 +1,5 @@
 pub mod plogp;
+pub mod plogp2;
 
 use crate::run::{Job, JobResult, PropMeta, Violation};
 use serde_json::Value;
@@ -6,6 +7,7 @@ use serde_json::Value;
 pub fn plan(prop: &str, tier: &str) -> Option<(PropMeta, Vec<Job>)> {
     match prop {
         "C01" | "C02" | "C03" => Some(plogp::plan(prop, tier)),
+        "C14" | "C15" | "C16" | "C18" => Some(plogp2::plan(prop, tier)),
         _ => None,
     }
 }
@@ -13,6 +15,7 @@ pub fn plan(prop: &str, tier: &str) -> Option<(PropMeta, Vec<Job>)> {
 pub fn run_job(job: &Job) -> JobResult {
     match job.prop.as_str() {
         "C01" | "C02" | "C03" => plogp::run_job(job),
+        "C14" | "C15" | "C16" | "C18" => plogp2::run_job(job),
         p => JobResult { machinery_error: Some(format!("unknown property {p}")), ..Default::default() },
     }
 }
